@@ -85,7 +85,7 @@ def cases(draw, tier):
     late = tuple(p for p in provs if p.startswith("late"))
     async_mode = draw(st.sampled_from(["none", "none", "all", "mixed", "late-only", "late-only"]))
     spec = draw(gen.machine_spec(max_states=4, max_extra=6, providers=provs, late=late, async_mode=async_mode, sends=draw(st.sampled_from([False, False, True])),
-                                 attach=("conv", "name"), guard_kinds=("method", "property"), instance_cbs=True))
+                                 attach=("conv", "name"), guard_kinds=("method", "property", "attr"), instance_cbs=True))
     in_unless = {g for t in spec["trans"] for g in t["unless"]}
     # late listeners co-provide explicit names and guard names
     for c in list(spec["cbs"]):
